@@ -12,7 +12,7 @@ theorem skel_WithReverseClient_shape :
     Generated.skel_WithReverseClient = [
   "return func{…}",
   "  c.reverseClientBuilder = func{…}",
-  "    cl := client{ namespace: namespace, paramEncoders: map[reflect.Type]ParamEncoder{}, methodNameFormatter: c.methodNameFormatter, }",
+  "    cl := client{ namespace: namespace, paramEncoders: map[reflect.Type]ParamEncoder{}, errors: c.errors, methodNameFormatter: c.methodNameFormatter, }",
   "    cl.exiting = conn.exiting",
   "    requests := cl.setupRequestChan()",
   "    conn.requests = requests",
@@ -89,6 +89,7 @@ theorem skel_websocketClient_shape :
   "if len(config.reverseHandlers) > 0",
   "  sc := defaultServerConfig()",
   "  sc.methodNameFormatter = config.methodNamer",
+  "  sc.errors = config.errors",
   "  h := makeHandler(sc)",
   "  h.aliasedMethods = config.aliasedHandlerMethods",
   "  range config.reverseHandlers",
